@@ -90,6 +90,8 @@ def gen_table(rng, n=None, time=None, nan=False):
         out['t_unit'] = rng.choice(['s', 's', 'ms', 'ns'])
     if time and rng.random() < 0.4:
         out['ex_time'] = 'early'
+    if rng.random() < 0.2:
+        out['g_cat'] = True         # the key column g is categorical and declares categories that never occur
     return out
 
 
@@ -103,7 +105,8 @@ def table_df(tab):
         idx = pd.RangeIndex(n)
     return pd.DataFrame({'x': np.array([np.nan if v is None else float(v) for v in tab['x']], dtype='float64'),
                          'y': np.array(tab['y'], dtype='int64'),
-                         'g': pd.array(list(tab['g']), dtype='str'),
+                         'g': (pd.Categorical(list(tab['g']), categories=['a', 'b', 'c', 'd', 'zy', 'zz', 'never'])
+                               if tab.get('g_cat') else pd.array(list(tab['g']), dtype='str')),
                          'h': np.array(tab['h'], dtype='int64')}, index=idx)
 
 
@@ -118,7 +121,9 @@ def example_df(tab, ex):
     e = dict(_EX)
     if tab.get('t') is None:
         e['t'] = None
-    else:
+    if tab.get('g_cat'):
+        e['g_cat'] = True
+    if tab.get('t') is not None:
         if tab.get('t_unit'):
             e['t_unit'] = tab['t_unit']
         if tab.get('ex_time') == 'early':
@@ -525,11 +530,20 @@ def build(op, example, start=NO, with_state=False, raw=False):
 
 
 class Trace(object):
-    __slots__ = ('outs', 'errs', 'build_error', 'raw')
+    __slots__ = ('outs', 'errs', 'build_error', 'raw', 'mutated')
 
     def __init__(self):
         self.outs, self.errs, self.build_error = [], [], None
         self.raw = []       # the very objects that were emitted (not copies), per batch
+        self.mutated = []   # (batch number, description): the batch object handed to emit() came back altered
+
+
+def _same_data(a, b):
+    if type(a) is not type(b) or a.shape != b.shape:
+        return False
+    if isinstance(a, pd.DataFrame) and (list(a.columns) != list(b.columns) or list(a.dtypes) != list(b.dtypes)):
+        return False
+    return bool(a.equals(b)) and a.index.equals(b.index)
 
 
 def feed_of(op, batch):
@@ -558,13 +572,18 @@ def run_pipeline(op, example, batches, start=NO, with_state=False, raw=False, sn
                 RAW.append(v)
                 L.append(copy.deepcopy(v) if snapshot else v)
             sink = out.sink(keep)
-            for b in batches:
+            for kb, b in enumerate(batches):
                 n0 = len(L)
+                feed = feed_of(op, b)
+                pristine = feed.copy(deep=True)
                 try:
-                    src.emit(feed_of(op, b))
+                    src.emit(feed)
                     tr.errs.append(None)
                 except Exception as e:                 # noqa: BLE001
                     tr.errs.append(e)
+                if not _same_data(feed, pristine):
+                    # the caller's batch (which any other consumer of the same source receives as well) was written to
+                    tr.mutated.append((kb + 1, 'columns %s -> %s' % (list(getattr(pristine, 'columns', [])), list(getattr(feed, 'columns', [])))))
                 tr.outs.append(L[n0:])
                 tr.raw.append(RAW[n0:])
     finally:
@@ -947,6 +966,10 @@ def run_with_example_fallback(case, ctx, **kw):
             ctx.violate('build-exception-on-empty-example@%s' % op_label(op),
                         '%s cannot be built on an empty example: %r' % (op_label(op), tr.build_error), case)
         tr = run_pipeline(op, example_df(tab, 'rows'), batches, **kw)
+    ctx.count('input_batches_checked_for_modification', len(batches))
+    if tr.mutated:
+        ctx.violate('input-batch-modified@%s' % op_label(op), '%s wrote into the batch object that was handed to emit() (batch %d: %s); '
+                    'every other consumer of the same source sees the altered data' % (op_label(op), tr.mutated[0][0], tr.mutated[0][1]), case)
     return df, batches, tr
 
 
